@@ -471,8 +471,13 @@ class ADC(ArithmeticInstruction):
     def lift_operation2(
         self, il: LowLevelILFunction, il_arg1: ExpressionIndex, il_arg2: ExpressionIndex
     ) -> ExpressionIndex:
+        # Widen the inner (operand + carry-in) sum by one byte so that
+        # 0xFF + C does not wrap to 0 and lose the carry-out.
         return il.add(
-            self.width(), il_arg1, il.add(self.width(), il_arg2, il.flag(CFlag)), CZFlag
+            self.width(),
+            il_arg1,
+            il.add(self.width() + 1, il_arg2, il.flag(CFlag)),
+            CZFlag,
         )
 
 
@@ -492,8 +497,13 @@ class SBC(ArithmeticInstruction):
     def lift_operation2(
         self, il: LowLevelILFunction, il_arg1: ExpressionIndex, il_arg2: ExpressionIndex
     ) -> ExpressionIndex:
+        # Widen the inner (operand + borrow-in) sum by one byte so that
+        # 0xFF + C does not wrap to 0 and lose the borrow-out.
         return il.sub(
-            self.width(), il_arg1, il.add(self.width(), il_arg2, il.flag(CFlag)), CZFlag
+            self.width(),
+            il_arg1,
+            il.add(self.width() + 1, il_arg2, il.flag(CFlag)),
+            CZFlag,
         )
 
 
@@ -805,13 +815,15 @@ def lift_multi_byte(
 
             if subtract:  # SBCL: m = m - n - C_in. Implemented as m - (n + C_in)
                 # The inner add (n + C_in) must NOT alter flags.
-                term_to_subtract = il.add(w, b, initial_c_flag_expr)
+                # (one byte wider so that 0xFF + C does not wrap and drop the borrow)
+                term_to_subtract = il.add(w + 1, b, initial_c_flag_expr)
                 main_op_llil = il.sub(
                     w, a, term_to_subtract, CZFlag
                 )  # This SUB sets C and Z flags
             else:  # ADCL: m = m + n + C_in. Implemented as m + (n + C_in)
                 # The inner add (n + C_in) must NOT alter flags.
-                term_to_add = il.add(w, b, initial_c_flag_expr)
+                # (one byte wider so that 0xFF + C does not wrap and drop the carry)
+                term_to_add = il.add(w + 1, b, initial_c_flag_expr)
                 main_op_llil = il.add(
                     w, a, term_to_add, CZFlag
                 )  # This ADD sets C and Z flags
